@@ -17,6 +17,7 @@ def keyFn (name : String) : Except String (Val → Nat) :=
   | "ident" => .ok fun | .int i => i.toNat | _ => 0          -- ints ≥ 0 only (guarded by the harness)
   | "len" => .ok fun | .str s => s.length | .tup t => t.length | _ => 0
   | "const" => .ok fun _ => 5
+  | "kind" => .ok fun | .bool _ => 1 | .int _ => 0 | .str _ => 2 | .tup _ => 3 | _ => 4   -- tells `1` from `True` (equal as dict keys)
   | _ => .error "keyFn"
 
 /-- user partition functions that may return NEGATIVE numbers: `f(key) % n` is Python's floor-mod, whose result lies
